@@ -72,6 +72,8 @@ def _values(kind, n, rng):
         return rng.integers(0, 6, n).astype("f8")
     if kind == "scale":
         return rng.uniform(0.5, 2.0, n)
+    if kind == "dra":          # right-ascension differences, many of them outside [-180, 180]
+        return rng.uniform(-800, 800, n)
     if kind == "ra_wcs":
         return 35.5 + rng.uniform(-0.05, 0.05, n)
     if kind == "dec_wcs":
@@ -134,6 +136,12 @@ def call(name, args, opts=None, layouts=None, n=(1, 12), dtypes=None):
                        "dtypes": dtypes or NUM_DTYPES}
         return fn
     return deco
+
+
+def _watch(A, name, arr):
+    """Register an array built inside a registered call (from esutil results) that is then handed to the call
+    under test as an argument: it is snapshotted now and compared after the call like the generated ones."""
+    A.setdefault("__watch__", []).append((name, arr, arr, _snap(arr, arr)))
 
 
 SKY2 = [("ra1", "lon"), ("dec1", "lat"), ("ra2", "lon"), ("dec2", "lat")]
@@ -363,7 +371,7 @@ def _(es, A, o, ctx):
 
 
 @call("htm.bincount", [("ra1", "lon_cl"), ("dec1", "lat_cl"), ("ra2", "lon_cl"), ("dec2", "lat_cl"), ("scale", "scale")],
-      {"scale": ["none", "scalar", "array"], "precomputed": [False, True]})
+      {"scale": ["none", "scalar", "array"], "precomputed": [False, True, "ids-only"]})
 def _(es, A, o, ctx):
     h = es.htm.HTM(6)
     kw = {}
@@ -376,6 +384,12 @@ def _(es, A, o, ctx):
         minid, maxid = int(ids.min()), int(ids.max())
         hist, rev = es.stat.histogram(ids - minid, rev=True)
         kw.update(htmid2=ids, htmrev2=rev, minid=minid, maxid=maxid)
+        if o["precomputed"] == "ids-only":
+            kw = dict((k, v) for k, v in kw.items() if k not in ("htmrev2", "minid", "maxid"))
+        # the precomputed arrays are arguments too
+        _watch(A, "htmid2", ids)
+        if "htmrev2" in kw:
+            _watch(A, "htmrev2", rev)
     return h.bincount(0.001, 0.2, 4, A["ra1"], A["dec1"], A["ra2"], A["dec2"], **kw)
 
 
@@ -405,6 +419,11 @@ def _(es, A, o, ctx):
 def _(es, A, o, ctx):
     w = es.wcsutil.WCS(dict(TAN_HDR if o["hdr"] == "tan" else TPV_HDR))
     return w.get_jacobian(A["x"], A["y"], distort=o["distort"])
+
+
+@call("wcs.wrap_ra_diff", [("dra", "dra")], {}, layouts=LAY0)
+def _(es, A, o, ctx):
+    return es.wcsutil.wrap_ra_diff(A["dra"])
 
 
 # ---- integrate ---------------------------------------------------------------------------------------
@@ -462,7 +481,7 @@ def check_numeric(case, ctx):
         ctx.count("raised:%s:%s" % (case["call"], type(r.exc).__name__))
     else:
         ctx.count("returned:%s" % case["call"])
-    for an, view, base, before in snaps:
+    for an, view, base, before in snaps + A.get("__watch__", []):
         after = _snap(view, base)
         for what, b, a in zip(("dtype", "dtype string", "shape", "strides", "writeable flag", "buffer bytes",
                                "base dtype", "base shape", "base strides"), before, after):
@@ -471,7 +490,7 @@ def check_numeric(case, ctx):
             else:
                 ok = a == b
             require(ok, "%s%s: argument %r (%s) was modified: %s changed%s", case["call"], case["opts"], an,
-                    case["args"][an], what,
+                    case["args"].get(an, "built from esutil results"), what,
                     "" if what == "buffer bytes" else " from %r to %r" % (b, a))
 
 
@@ -505,7 +524,7 @@ def struct_cases(draw):
     name = draw(st.sampled_from(STRUCT_CALLS))
     text = name.endswith("-text")
     t = draw(T.tables(kind="text" if text else "binary", max_fields=5, max_rows=12, big_rows=0,
-                      types=T.INTS + T.FLOATS))
+                      types=T.INTS + T.FLOATS, allow_mixed_order=True))
     return {"call": name, "table": t, "layout": draw(st.sampled_from(["contig", "strided", "offset"])),
             "delim": draw(st.sampled_from([",", " ", "\t"])), "pick": draw(st.integers(0, 10 ** 6))}
 
